@@ -7,7 +7,7 @@ from engine.ref import directives as ref
 from engine.ref import formats
 
 LEVEL = "model_checking"
-CONFIGS = ["msp430", "68000", "avr8", "lc3", "propeller", "ebpf"]
+CONFIGS = ["msp430", "68000", "avr8", "lc3", "propeller", "ebpf", "default"]   # default = no CPU directive at all
 
 PREFIX = [("org", 0x40), ("label", "first")]
 SUFFIX = [("label", "zz_end"), ("dw", "dw", [0x0102])]
@@ -61,12 +61,12 @@ def name_labels(hist):
 
 def source(cpu, hist):
     prog = PREFIX + name_labels(hist) + SUFFIX
-    return ".%s\n" % cpu + "".join(ref.render(s) + "\n" for s in prog), prog
+    return ("" if cpu == "default" else ".%s\n" % cpu) + "".join(ref.render(s) + "\n" for s in prog), prog
 
 
 def judge(cpu, hist, with_bin=False):
     """run one history on the tool and on the model -> (key, verdict, detail)"""
-    c = cpus.cpu(cpu)
+    c = cpus.cpu("msp430" if cpu == "default" else cpu)
     src, prog = source(cpu, hist)
     exp = ref.run(prog, c["endian"], c["bpa"])
     r = asm.assemble(src, "hex", args=("-dump_symbols",), files=FILES)
